@@ -15,7 +15,8 @@ record("Cluster", file=F, fields={
     "_lock_file": "Opaque",
     "_config_version_file": "Opaque",
     "_job_status_version_file": "Opaque",
-})
+    "g_promoted": "bool",     # ghost typestate: this handle won the promotion and has not demoted (C10)
+}, extra_attrs={"g_promoted"})
 
 # generators read from the real source as filtered views (DESIGN 3.4.3)
 contract("Cluster.iter_jobs", file=F, inline="generator",
